@@ -521,20 +521,27 @@ leaps_before(struct dt_dt_s d)
 		res = leaps_before_ui32(leaps_ymd, nleaps, d.d.ymd.u);
 		on = res + 1 < nleaps && leaps_ymd[res + 1] == d.d.ymd.u;
 		break;
-	case DT_YMCW:
-		res = leaps_before_ui32(leaps_ymcw, nleaps, d.d.ymcw.u);
-		on = res + 1 < nleaps && leaps_ymcw[res + 1] == d.d.ymcw.u;
+	case DT_YMCW: {
+		/* ymcw words are not ordered chronologically and their
+		 * padding bits are not defined, go through ymd */
+		const dt_ymd_t tmp = dt_dconv(DT_YMD, d.d).ymd;
+		res = leaps_before_ui32(leaps_ymd, nleaps, tmp.u);
+		on = res + 1 < nleaps && leaps_ymd[res + 1] == tmp.u;
 		break;
+	}
 	case DT_DAISY:
 		res = leaps_before_ui32(leaps_d, nleaps, d.d.daisy);
 		on = res + 1 < nleaps && leaps_d[res + 1] == d.d.daisy;
 		break;
 	case DT_SEXY:
-	case DT_SEXYTAI:
-		res = leaps_before_si32(leaps_s, nleaps, (int32_t)d.sexy);
-		on = (res + 1U < nleaps) &&
-			(leaps_s[res + 1] == (int32_t)d.sexy);
+	case DT_SEXYTAI: {
+		/* the table is keyed by 32-bit stamps */
+		const int32_t k = d.sexy > INT32_MAX ? INT32_MAX
+			: d.sexy < INT32_MIN ? INT32_MIN : (int32_t)d.sexy;
+		res = leaps_before_si32(leaps_s, nleaps, k);
+		on = (res + 1U < nleaps) && (leaps_s[res + 1] == k);
 		break;
+	}
 	default:
 		res = 0;
 		on = false;
